@@ -49,13 +49,60 @@ pub fn do_run(g: &TestGraph, c: &Case, r: &RunDesc) -> RunOut {
 
 /// Run every strategy of the case on the real executor and print the Coq `case` term.
 pub fn exec_case(c: &Case) -> (String, String) {
+    exec_case_noise(c, None)
+}
+
+/// An unrelated request on the same graph instance (other input data, other outputs, all inputs
+/// borrowed): returns whether constants and borrowed inputs were left untouched.
+fn noise_run(g: &TestGraph, c: &Case, rng: &mut SplitMix64) -> bool {
+    let inputs: Vec<RunInput> = c
+        .ins
+        .iter()
+        .map(|(id, d)| RunInput { id: *id, data: gv(rng.below(1000) as i64, d.values().len().max(1)), owned: rng.chance(1, 3) })
+        .collect();
+    let n = c.spec.nodes.len() as u64;
+    let mut outs: Vec<u32> = vec![];
+    for _ in 0..1 + rng.below(3) {
+        let v = rng.below(n) as u32;
+        if matches!(c.spec.nodes[v as usize], NodeSpec::Op { .. }) || outs.contains(&v) {
+            continue;
+        }
+        outs.push(v);
+    }
+    if outs.is_empty() {
+        return true;
+    }
+    let before = g.constants();
+    let cfg = RunCfg { threads: None, use_pool: Some(rng.chance(1, 2)) };
+    let rep = no_panic(|| g.run(&inputs, &outs, &cfg));
+    let expect: Vec<Vec<i32>> = inputs.iter().filter(|i| !i.owned).map(|i| i.data.clone()).collect();
+    let ok_inputs = rep.map(|r| r.borrowed_after == expect).unwrap_or(true);
+    ok_inputs && no_panic(|| g.constants()).map(|a| a == before).unwrap_or(false)
+}
+
+/// Like [`exec_case`]; with `noise = Some(seed)` an unrelated request is run on the same graph
+/// instance before every recorded run (C25: a run must not affect later runs).
+pub fn exec_case_noise(c: &Case, noise: Option<u64>) -> (String, String) {
+    let mut noise_rng = noise.map(SplitMix64);
     let g = TestGraph::build(&c.spec, false);
     let g_noip = TestGraph::build(&c.spec, true);
     let in_ids: Vec<u32> = c.ins.iter().map(|(i, _)| *i).collect();
     let plan = no_panic(|| g.plan(&in_ids, &c.outs)).and_then(|p| p.ok());
     let plan_noip = no_panic(|| g_noip.plan(&in_ids, &c.outs)).and_then(|p| p.ok());
-    let outs: Vec<RunOut> =
-        c.runs.iter().map(|r| do_run(if r.noip { &g_noip } else { &g }, c, r)).collect();
+    let outs: Vec<RunOut> = c
+        .runs
+        .iter()
+        .map(|r| {
+            let gr = if r.noip { &g_noip } else { &g };
+            let quiet = match noise_rng.as_mut() {
+                Some(rng) => noise_run(gr, c, rng),
+                None => true,
+            };
+            let mut o = do_run(gr, c, r);
+            o.consts_ok &= quiet;
+            o
+        })
+        .collect();
     // distinct results are bound once
     let mut table: Vec<IRes> = vec![];
     let mut idx = vec![];
@@ -146,11 +193,19 @@ pub struct GenOpts {
     /// allow a run input to be an operator output (the F11 class)
     pub computed_inputs: bool,
     pub nondet: bool,
+    /// request run inputs / constants as outputs as well
+    pub ext_outputs: bool,
+    /// every in-place capable operator overwrites its input buffer
+    pub all_mut: bool,
+    /// number of run inputs (0 = random 1..4) and small tensors only
+    pub n_in: usize,
+    pub small: bool,
 }
 
 /// A random DAG: inputs, constants, then operators each consuming earlier values.
 pub fn random_graph(rng: &mut SplitMix64, o: &GenOpts) -> (GraphSpec, Vec<(u32, Data)>, Vec<(u32, Data)>, Vec<u32>) {
-    let n_in = 1 + rng.below(4) as usize;
+    let n_in = if o.n_in > 0 { o.n_in } else { 1 + rng.below(4) as usize };
+    let lens: &[usize] = if o.small { &[1, 2, 3] } else { &LENS };
     let n_const = rng.below(3) as usize;
     let mut nodes: Vec<NodeSpec> = vec![];
     let mut avail: Vec<u32> = vec![];
@@ -158,12 +213,12 @@ pub fn random_graph(rng: &mut SplitMix64, o: &GenOpts) -> (GraphSpec, Vec<(u32, 
     let mut consts: Vec<(u32, Data)> = vec![];
     for i in 0..n_in {
         nodes.push(NodeSpec::Value { name: format!("n{}", i) });
-        let len = rng.pick(&LENS);
+        let len = rng.pick(lens);
         ins.push((i as u32, rand_data(rng, len)));
         avail.push(i as u32);
     }
     for i in 0..n_const {
-        let len = rng.pick(&LENS);
+        let len = rng.pick(lens);
         let id = nodes.len();
         let d = rand_data(rng, len);
         nodes.push(NodeSpec::Constant { name: format!("n{}", id), data: d.values() });
@@ -218,9 +273,9 @@ pub fn random_graph(rng: &mut SplitMix64, o: &GenOpts) -> (GraphSpec, Vec<(u32, 
             n_outputs: n_out,
             in_place,
             commutative,
-            mutating: rng.chance(2, 3),
+            mutating: o.all_mut || rng.chance(2, 3),
             deterministic: !nondet,
-            out_len: if arity == 0 || rng.chance(1, 6) { Some(rng.pick(&LENS) as u32) } else { None },
+            out_len: if arity == 0 || rng.chance(1, 6) { Some(rng.pick(lens) as u32) } else { None },
             modulus: if rng.chance(1, 10) { Some(1 + rng.below(5) as i32) } else { None },
         };
         // outputs get ids after the operator node itself
@@ -273,12 +328,20 @@ pub fn random_graph(rng: &mut SplitMix64, o: &GenOpts) -> (GraphSpec, Vec<(u32, 
             outs.push(v);
         }
     }
+    if o.ext_outputs {
+        for _ in 0..2 {
+            let v = avail[rng.below((n_in + n_const) as u64) as usize];
+            if !outs.contains(&v) {
+                outs.push(v);
+            }
+        }
+    }
     if rng.chance(1, 2) {
         outs.reverse();
     }
     if o.computed_inputs && !computed.is_empty() && rng.chance(1, 2) {
         let v = computed[rng.below(computed.len() as u64) as usize];
-        let len = rng.pick(&LENS);
+        let len = rng.pick(lens);
         ins.push((v, rand_data(rng, len)));
     }
     (GraphSpec { nodes, inputs: vec![], outputs: vec![], captures: vec![] }, ins, consts, outs)
